@@ -51,7 +51,7 @@ package typesystem
 //@     ghost cachedTS *typesystem.TypeSystem = nil
 //@     before call (*singleflight.Group).Do args _, k, f : assert (closureOf(f, "MemoizedTypesystemResolverFunc$1$2") && hasSuffix(k, ":" + deref(addrOf(storeID))) && closureBinds(f, 2, addrOf(storeID))) || (closureOf(f, "MemoizedTypesystemResolverFunc$1$3") && hasSuffix(k, ":" + deref(addrOf(storeID)) + "/" + deref(addrOf(modelID))) && closureBinds(f, 2, addrOf(storeID)) && closureBinds(f, 3, addrOf(modelID)))
 //@     after call (*singleflight.Group).Do args _, k, f returning v, e, sh : lookedUp = v ; latestCalled = latestCalled || closureOf(f, "MemoizedTypesystemResolverFunc$1$2")
-//@     before call (*keys.Builder).EncodeString args _, s : assert (nEnc == 0 ==> s == "TS") && (nEnc == 1 ==> s == deref(addrOf(storeID))) && (nEnc == 2 ==> s == deref(addrOf(modelID))) && nEnc <= 2
+//@     before call (*keys.Builder).EncodeString args _, s : assert (nEnc == 0 ==> s == "TS") && (nEnc == 1 ==> s == deref(addrOf(storeID))) && (nEnc == 2 ==> (modelID != "" ==> s == modelID) && (modelID == "" ==> typeIs(lookedUp, "*openfgav1.AuthorizationModel") && s == as(lookedUp, "*openfgav1.AuthorizationModel").GetId())) && nEnc <= 2
 //@     after call (*keys.Builder).EncodeString args _, s : nEnc = nEnc + 1
 //@     before call (*keys.Builder).Key : assert nEnc == 3
 //@     after call (storage.InMemoryLRUCache*).Get returning it : served = it != nil
